@@ -25,8 +25,11 @@ def validate(run, tier):
     cfgs = [dict(clustering=False), dict(clustering=True, sample="rwm", resample="syst")]
     if tier != "quick":
         cfgs += [dict(clustering=True), dict(clustering=False, sample="rwm"), dict(clustering=False, resample="syst", volume_variation=0.5)]
-    for target in ("interior", "periodic", "periodic_shift", "edge", "corr"):
-        for cfg in (cfgs if target not in ("corr", "periodic_shift") else [dict(clustering=False), dict(clustering=True)][:1 if tier == "quick" else 2]):
+    for target in ("interior", "periodic", "periodic_shift", "edge", "corr", "bimodal", "edge_reflective"):
+        few = [dict(clustering=False), dict(clustering=True)][:1 if tier == "quick" else 2]
+        if target == "bimodal":
+            few = [dict(clustering=True), dict(clustering=False, sample="rwm", resample="syst")][:1 if tier == "quick" else 2]
+        for cfg in (cfgs if target not in ("corr", "periodic_shift", "bimodal", "edge_reflective") else few):
             res = ens.run_ensemble(target, cfg, R, npart, 5000)
             bad = [r for r in res if not r["ok"]]
             what = dict(target=target, cfg=cfg, runs=R, n_particles=npart, seeds="5000..")
@@ -52,12 +55,21 @@ def validate(run, tier):
                 if abs(e_c) > 6 * se_c + 0.03 or abs(e_s) > 6 * se_s + 0.03:
                     run.fail("periodic-coordinate-biased", f"{target}: circular moments of the periodic coordinate over {R} seeds: E[cos] error "
                              f"{e_c:+.3f} (se {se_c:.3f}), E[sin] error {e_s:+.3f} (se {se_s:.3f})", **what)
+            if target == "bimodal":
+                # mode masses (0.3 / 0.7) and a marginal CDF value: P(x0 < 2) = 0.3 + 0.7/2
+                e_m, se_m = ens.stats([r["mass_left"] for r in res], 0.3)
+                e_c, se_c = ens.stats([r["cdf0"] for r in res], 0.65)
+                run.extra["ensemble"][-1].update(mass_err=round(e_m, 4), mass_se=round(se_m, 4), cdf_err=round(e_c, 4), cdf_se=round(se_c, 4))
+                if abs(e_m) > 6 * se_m + 0.03 or abs(e_c) > 6 * se_c + 0.03:
+                    run.fail("mode-mass-biased", f"bimodal target (masses 0.3/0.7): mass of the left mode off by {e_m:+.3f} (se {se_m:.3f}), "
+                             f"P(x0<2) off by {e_c:+.3f} (se {se_c:.3f}) over {R} seeds", **what)
+                continue
             if target == "corr":
                 e_c, se_c = ens.stats([r["cov01"] for r in res], ens.RHO * ens.S ** 2)
                 run.extra["ensemble"][-1].update(cov_err=round(e_c, 4), cov_se=round(se_c, 4))
                 if abs(e_c) > 6 * se_c + 0.06:
                     run.fail("posterior-estimate-biased", f"correlated target (rho={ens.RHO}): posterior covariance error {e_c:+.3f} (se {se_c:.3f}) over {R} seeds", **what)
-            if target == "edge":
+            if target in ("edge", "edge_reflective"):
                 # coordinate 0 abuts the hard boundary x0 = -5: posterior is a half-Gaussian there
                 true0 = -5.0 + ens.S * math.sqrt(2 / math.pi)
                 e0, se0 = ens.stats([r["mean"][0] for r in res], true0)
@@ -169,4 +181,7 @@ def main(tier, seed):
         if abs(e0) > 4 * se0 + 0.01:
             r.fail("hard-boundary-bias-in-posterior", f"posterior abutting a hard prior boundary: mean of the abutting coordinate is off by {e0:+.3f} "
                    f"(se {se0:.3f}) over {len(ok)} seeds", target="edge", cfg=cfg, runs=R, n_particles=64, seeds="5600..")
+    run.extra["runs_aborted_by_the_listed_C14_finding"] = list(ens.ABORTED_BY_C14)
+    if len(ens.ABORTED_BY_C14) > 8:
+        run.fail("too-many-aborted-runs", f"{len(ens.ABORTED_BY_C14)} ensemble runs were aborted by LinAlgError in ModeStatistics.from_particles", runs=ens.ABORTED_BY_C14[:10])
     run.finish(search=search)
